@@ -467,6 +467,34 @@ def r10_user_names_renamed(idx, r):
     r.require(bool(users), "writer:consults-user-names", users[0] if users else f, msg="the writer consults the user-set names")
 
 
+def r11_exactly_one_and_expiry(idx, r):
+    """(a) a detailed cycle entry must give EXACTLY one of the duration inputs: the schema hook counts them and must compare the count with 1
+    by (in)equality - `> 1` lets an entry with no duration at all through.  (b) an old setting name is expired once its expiry date has
+    passed: `expired` must be monotone in `today` that way round."""
+    m = idx.modules.get("armi.settings.fwSettings.globalSettings")
+    f = m.functions.get("_mutuallyExclusiveCyclesInputs") if m is not None else None
+    if f is None:
+        raise AnchorMissing("globalSettings._mutuallyExclusiveCyclesInputs")
+    cmp_ = [x for x in ast.walk(f.node) if isinstance(x, ast.Compare) and len(x.ops) == 1 and isinstance(x.comparators[0], ast.Constant) and x.comparators[0].value == 1
+            and any(isinstance(y, ast.Call) and dotted(y.func) in ("sum", "len") for y in ast.walk(x.left))]
+    if not cmp_:
+        raise AnchorMissing("_mutuallyExclusiveCyclesInputs: comparison of the number of duration inputs with 1")
+    for x in cmp_:
+        r.require(isinstance(x.ops[0], (ast.Eq, ast.NotEq)), "cycles:exactly-one-duration-input", f, node=x,
+                  msg=f"`{norm(x)[:80]}` does not require exactly one duration input per cycle: an entry without any (or, with `<`, with several) is accepted and fails later, far from the input")
+    rn = idx.method("armi.settings.settingsIO.SettingRenamer", "__init__")
+    env = single_assign_env(rn.node)
+    ex = [s_ for s_ in iter_stores(rn.node) if s_.attr == "expired" and s_.value is not None and norm(s_.value) != "False"]
+    if not ex:
+        raise AnchorMissing("SettingRenamer.__init__: expired = ...")
+    for s_ in ex:
+        comps = [x for x in ast.walk(s_.value) if isinstance(x, ast.Compare) and len(x.ops) == 1 and {"today", "expiry"} <= {norm(x.left), norm(x.comparators[0])}]
+        ok = bool(comps) and all((norm(x.left) == "expiry" and isinstance(x.ops[0], (ast.Lt, ast.LtE))) or (norm(x.left) == "today" and isinstance(x.ops[0], (ast.Gt, ast.GtE))) for x in comps)
+        r.require(ok, "renamer:expired-once-the-date-has-passed", rn, node=s_.stmt,
+                  msg=f"`{norm(s_.stmt)}`: an old name must count as expired when its expiry date lies in the past; the other way round, names inside their grace period are refused and "
+                      "long-expired ones are silently renamed")
+
+
 def run(idx, chk):
     chk.explanation = (
         "C17: schema validation dominating the store in Setting.setValue and the frozen writers of Setting._value; the renamed name being the one "
@@ -490,3 +518,5 @@ def run(idx, chk):
                  necessary="every setting reads back under its own name with its own value, and a type/option violation is rejected")
     chk.run_rule("R17.10", "the names a user's file mentions are renamed to current names before the medium writer compares them", lambda r: r10_user_names_renamed(idx, r), floor=2,
                  necessary="medium style keeps every setting the user entered, under whatever accepted name")
+    chk.run_rule("R17.11", "a cycle entry needs exactly one duration input; an old name expires once its date has passed", lambda r: r11_exactly_one_and_expiry(idx, r), floor=2,
+                 necessary="type and consistency violations are rejected when the settings are read; accepted old names are exactly the unexpired ones")
